@@ -49,7 +49,7 @@ static const int inc_f14 = 1;   /* the querying API is used on every memory attr
 static unsigned long PS;
 static unsigned long st_ep, st_loadfail, st_write_ok, st_write_err, st_adopt_ok, st_adopt_einval, st_adopt_ebusy, st_adopt_fail,
   st_mod_eperm, st_mod_einval, st_mod_ebusy, st_mod_ok, st_signal, st_trace_allocs, st_kind_S, st_kind_X, st_mods, st_dist, st_mattr,
-  st_kinds, st_misc, st_restrict, st_infos, st_allow, st_readopt, st_twoseg, st_origfirst, st_objs, st_len_pages, st_f14, st_f16, st_stale_orig;
+  st_kinds, st_misc, st_restrict, st_infos, st_allow, st_readopt, st_twoseg, st_origfirst, st_objs, st_len_pages, st_f14, st_f16, st_stale_orig, st_dirty_region;
 
 /* ---- small helpers ---- */
 static const char *errname(int e) {
@@ -409,11 +409,12 @@ static int prefix_same(off_t upto) {
   for (off_t o = 0; o < upto; o += sizeof page) { if (pread(fd, page, sizeof page, o) != sizeof page) return 0; for (unsigned i = 0; i < sizeof page; i++) if ((unsigned char) page[i] != 0xA5) return 0; }
   return 1;
 }
-static long long last_nonzero(off_t off, size_t len) {  /* index+1 (relative to off) of the last non-zero byte of the segment, 0 if none */
+static int seg_fill;      /* what the segment held before the write: 0 (fresh) or the 0xC3 pattern of a dirty region */
+static long long last_nonzero(off_t off, size_t len) {  /* index+1 (relative to off) of the last byte of the segment that differs from what it held before, 0 if none */
   char *m = mmap(NULL, len, PROT_READ, MAP_SHARED, fd, off);
   if (m == MAP_FAILED) return -1;
   long long i = (long long) len;
-  while (i > 0 && !m[i - 1]) i--;
+  while (i > 0 && m[i - 1] == (char) seg_fill) i--;
   munmap(m, len);
   return i;
 }
@@ -674,6 +675,14 @@ static void run_episode(const char *id, char kind, unsigned long tflags, int mis
     /* recording passes are taken AFTER the write (write refreshes the old topology first); their lines come first because the model's
      * write needs the trace */
     int wsig, wrc = 0, werr;
+    /* every other segment: the file region already holds non-zero bytes (an in-place update, a preallocated or pattern-filled file):
+     * the stored topology may not depend on what the region held before */
+    seg_fill = 0;
+    if ((((unsigned long) s->off >> 12) ^ (unsigned) k) & 1) {
+      char page[4096]; memset(page, 0xC3, sizeof page); seg_fill = 0xC3;
+      for (size_t o = 0; o < s->len; o += sizeof page) if (pwrite(fd, page, sizeof page, (off_t) (s->off + o)) != (ssize_t) sizeof page) exit(3);
+      st_dirty_region++;
+    }
     errno = 0;
     GUARDED(wsig, wrc = hwloc_shmem_topology_write(t, fd, s->off, s->addr, s->len, 0));
     werr = errno;
